@@ -7,7 +7,8 @@
 From Coq Require Import Strings.String Strings.Byte.
 From Coq Require Import List Arith NArith Bool Lia.
 From Verif Require Import Model.Lifecycle Model.CallLife Model.Graceful
-  Proofs.LifecycleProofs Proofs.PeerProofs Proofs.C07Lemmas Proofs.CallLifeProofs Proofs.GracefulProofs.
+  Proofs.LifecycleProofs Proofs.PeerProofs Proofs.C07Lemmas Proofs.CallLifeProofs Proofs.GracefulProofs
+  Proofs.NoOrphanProofs.
 Import ListNotations.
 
 (* The reply write of every CALL handler entered before Close began has succeeded by the
@@ -43,6 +44,15 @@ Theorem C08_wait_groups_exact : forall s,
   ctxWG s = cnt ctx_active (hctxs s) + cnt h_active (calls s) /\ callWG s = cnt undone (calls s).
 Proof. intros s H. exact (proj1 (proj2 (reach_c8 s H))). Qed.
 Print Assumptions C08_wait_groups_exact.
+
+(* A call of this side whose request went out and that has completed: it ended with
+   connection-closed only if the connection was lost (the session is passive, or its read loop
+   has left the loop); it ended OK only with a reply bound to it by the read loop. *)
+Theorem C08_own_calls_get_reply_or_conn_error : forall s i c,
+  reach_sess s -> nth_error (calls s) i = Some c -> c_dones c = 1 -> c_wrote c = true ->
+  (c_stat c = StConnClosed -> lost_evidence s) /\ (c_stat c = StOk -> c_rep c = true).
+Proof. exact own_calls_lemma. Qed.
+Print Assumptions C08_own_calls_get_reply_or_conn_error.
 
 (* peer.Close: Close() is under way on every session that is still healthy *)
 Theorem C08_peer_close_joins_all : forall es p p' n s,
